@@ -261,7 +261,10 @@ class ExprGen:
         r = self.r
         k = r.random()
         if depth >= 3 or k < 0.3:
-            return ("num", r.choice(["0", "1", "2", "3", "10", "0.5", "1.5", "2.5", ".5", "7.", "100", "0.1"]))
+            # (the last three: the largest double below one half, an odd integer above 2^52 and the largest odd integer - where
+            # `floor(x + 0.5)` is not `round(x)`; round-7 seed C05-I)
+            return ("num", r.choice(["0", "1", "2", "3", "10", "0.5", "1.5", "2.5", ".5", "7.", "100", "0.1",
+                                     "0.49999999999999994", "4503599627370497", "9007199254740991"]))
         if k < 0.45:
             return ("bin", r.choice(["+", "-", "*", "div", "mod"]), self.number(depth + 1), self.number(depth + 1))
         if k < 0.55:
@@ -282,7 +285,10 @@ class ExprGen:
         r = self.r
         k = r.random()
         if depth >= 3 or k < 0.3:
-            return ("lit", r.choice(["", "a", "t", "12", " 3 ", "x y", "é", "en", "1.5", "abc", "\U0001D4B3z", "E 1"]))
+            # (strings a host language's number parser reads but the XPath Number production does not: exponent, sign, inf, nan, hex,
+            # digits of other scripts; round-7 seeds C05-J, C06-I)
+            return ("lit", r.choice(["", "a", "t", "12", " 3 ", "x y", "é", "en", "1.5", "abc", "\U0001D4B3z", "E 1",
+                                     "1e3", "+1", "inf", "Infinity", "NaN", "0x10", "1_0", "\u0661\u0662", "\uff11\uff12", "\u00b2", "-"]))
         if k < 0.42:
             return ("call", "string", [self.any(depth + 1)] if r.random() < 0.8 else [])
         if k < 0.5:
